@@ -4,7 +4,7 @@ from mirsym.harness import Run
 from props import c11, boardsym as B
 run = Run('C11'); run.build(); B.check_layout(run.prog)
 sub=run.sub()
-shp=eval(sys.argv[1])
+job=eval(sys.argv[1])
 t=time.time()
-c11.worker(sub, shp)
-print(round(time.time()-t,1), [(q['id'],q['verdict'],q['seconds']) for q in sub.queries][:6], sub.inconclusive[:3], [v['what'][:300] for v in sub.violations][:3], sub.exec_stats)
+c11.worker(sub, job)
+print(round(time.time()-t,1), [(q['id'],q['verdict'],q['seconds']) for q in sub.queries][:12], sub.inconclusive[:3], [v['what'][:300] for v in sub.violations][:3], sub.exec_stats)
